@@ -608,22 +608,19 @@ func (x *Exec) declareSpec(sf *SpecFunc) {
 	} else {
 		def = Eq(appT, scalar(body))
 	}
-	pats := [][]*Term{{appT}}
-	if len(sf.Trigger) > 0 {
-		pats = nil
-		for _, tr := range sf.Trigger {
-			var ts []*Term
-			for _, pe := range tr {
-				ts = append(ts, scalar(env.eval(pe)))
-			}
-			pats = append(pats, ts)
-		}
+	_ = appT
+	if x.specDefs == nil {
+		x.specDefs = map[string]*SpecDef{}
 	}
-	if len(vars) == 0 {
-		x.axioms = append(x.axioms, def)
-	} else {
-		x.axioms = append(x.axioms, Forall(vars, def, pats...))
-	}
+	x.specDefs["spec:"+sf.Name] = &SpecDef{Vars: vars, Def: def}
+}
+
+// SpecDef is the definitional equation f(vars) = body of a recursive spec function;
+// it is instantiated for the ground applications present in an obligation (fuel-bounded
+// unfolding) instead of being asserted as a quantified axiom.
+type SpecDef struct {
+	Vars []*Term
+	Def  *Term
 }
 
 // specState: spec function bodies are state-independent; give them an empty state.
